@@ -150,6 +150,8 @@ def run(prog: Program, L: Ledger) -> None:
     t2 = Translator(vocab2)
     t2.module = ud0.module
     t2.hooks.append(lambda tr, node: sp.Symbol("U", real=True) if node is call else None)
+    d_caches = CacheResolver(prog, afb, vocab2, lambda _v=vocab2: Translator(_v))
+    t2.hooks.append(d_caches.hook)
     try:
         t2.run_block(ud.body())
     except Unsupported as exc:
@@ -159,6 +161,7 @@ def run(prog: Program, L: Ledger) -> None:
     dv = sp.sympify(vocab2.values["self.delta"])
     U2 = sp.Symbol("U", real=True)
     refd = vocab2.sym("dmin", real=True) + (vocab2.sym("dmax", real=True) - vocab2.sym("dmin", real=True)) * U2
+    d_caches.check(L, "R3", "AdaptiveForceBias.update_delta", "delta leaves [min_delta, max_delta] (and misses max_delta at zero variance / the midpoint) once the window is changed on the object")
     verdict, wit = same(dv, refd)
     if verdict == EQUAL:
         L.ok("R3", "update_delta:delta", ud0.where)
